@@ -1,7 +1,9 @@
 import SurfModel.Proto
 import SurfModel.Serde
 import SurfModel.KeyParse
+import SurfModel.SerdeViewProto
 def main : IO Unit := SurfModel.Proto.serve fun
   | "c19" :: "chord" :: rest => SurfModel.KeyParse.handle rest
+  | "c19" :: "doc" :: rest => SurfModel.SerdeView.handleDoc rest
   | "c19" :: rest => SurfModel.Serde.handle rest
   | _ => "bad-op"
